@@ -45,6 +45,12 @@ use std::collections::HashMap;
 //@include remover_vocab.vs
 //@include collect_vocab.vs
 
+//@fn id=remover_new file=code/remover.rs name=new in="impl Remover" props=C02,C03
+//@ret r
+//@ensures label=remover_new props=C02,C03
+    r.removal_evaluators == removal_evaluators, r.remove_strategies == remove_strategies,
+//@end
+
 //@fn id=is_skip file=code/remover.rs name=is_skip props=C03,C04,C06
 //@ret r
 //@ensures label=is_skip_exact props=C06
